@@ -644,6 +644,8 @@ class Interp:
         if isinstance(t, ast.Name):
             env.set(t.id, v)
         elif isinstance(t, (ast.Tuple, ast.List)):
+            if isinstance(v, Rec) and "__iter__" in v.methods:  # a record that unpacks like a (named) tuple
+                v = list(v.methods["__iter__"](self.ctx, v, (), {}))
             if isinstance(v, (tuple, list)) and len(v) == len(t.elts):
                 for tt, vv in zip(t.elts, v):
                     self.assign(tt, vv, env)
